@@ -102,6 +102,70 @@ def _validate_hist(ck, common, data, data_path, traces):
     return nfail
 
 
+def _short_edit(e):
+    import impl_c14
+
+    if e["op"] == "unit":
+        return "Unit(" + impl_c14.EDIT_PROBES[e["p"] - 1] + ")"
+    if e["op"] == "addsymbols":
+        return "add_symbols"
+    if e["op"] == "add":
+        return f"add({e['k']},{e['m']},prefixable={e['pfx']})"
+    if e["op"] == "modify":
+        return f"modify({e['k']},{e['m']})"
+    return f"remove({e['k']})"
+
+
+def _strip_edit(e):
+    return {k: e[k] for k in ("op", "k", "m", "pfx", "p")}
+
+
+def _validate_edit(ck, traces, label):
+    """Trace_C14_edit: P (EditStr / EditNs / EditAgree under the caller's view of the registry) and T on replayed edit histories"""
+    nfail = 0
+    for off in range(0, len(traces), CHUNK):
+        part = traces[off : off + CHUNK]
+        path = ck.write_json(f"edit_{label}_{off}.json", part)
+        res = ck.tlc("Trace_C14_edit", env={"TRACES": path}, workers=1, coverage=False, label=f"trace validation edited registry {label}[{off}:{off + len(part)}]", timeout=3000)
+        expect = 1 + sum(len(t["ev"]) + 2 for t in part)  # initial + per trace: selection, one per call, final observation
+        if res.distinct != expect:
+            raise MachineryFailure(f"edit-history validation consumed {res.distinct} states, expected {expect}")
+        ck.validated(len(part))
+        for r in res.by_tag("T-FAIL"):
+            t = part[r["tid"] - 1]
+            ck.drift_step("edited-registry:" + r["what"], {"history": [_short_edit(e) for e in t["ev"]], "at": r["l"], "model": r["model"]})
+        for r in res.by_tag("P-FAIL"):
+            t = part[r["tid"] - 1]
+            nfail += 1
+            at_final = r["l"] > len(t["ev"])
+            edits = [e["op"] for e in t["ev"][: len(t["ev"]) if at_final else r["l"]] if e["op"] in ("add", "remove", "modify")]
+            key = {"clause": r["clause"], "route": "edited-registry", "probe": r["probe"], "layer": r["layer"], "last_edit": edits[-1] if edits else "none"}
+            ck.violation(key, {"history": [_short_edit(e) for e in t["ev"]], "at": "final observation" if at_final else r["l"], "observed": r["observed"], "expected": r["expected"]}, case={"edit": [_strip_edit(e) for e in t["ev"]]})
+    return nfail
+
+
+def _edit(ck):
+    """custom registry with edited contents: TLC generates every history of <= MaxLen calls (NamesEdit / MC_C14_edit)"""
+    maxlen = ck.q(2, 3)
+    cfg = open(ck.spec + "/MC_C14_edit.cfg").read().replace("MaxLen = 2", f"MaxLen = {maxlen}")
+    open(ck.spec + "/MC_C14_edit_run.cfg", "w").write(cfg)
+    res = ck.tlc("MC_C14_edit", "MC_C14_edit_run", workers=1, label=f"edited custom registry: histories of add/remove/modify/Unit(str)/add_symbols, MaxLen={maxlen}", required_actions=["Next"], timeout=3000)
+    hs = res.by_tag("HIST")
+    if len(hs) != res.distinct or len(hs) < 20:
+        raise MachineryFailure(f"exported {len(hs)} edit histories for {res.distinct} states")
+    hs.sort(key=lambda r: json.dumps(r["h"], sort_keys=True))
+    model_classes = sorted({(c["layer"]) for r in hs for c in r["stale"]})
+    cases = [{"h": r["h"]} for r in hs]
+    traces = ck.pmap("impl_c14", "observe_edit", cases)
+    bad = [t for t in traces if "_error" in t]
+    if bad:
+        raise MachineryFailure("edit-history replay error: " + str(bad[0]))
+    nfail = _validate_edit(ck, traces, "hist")
+    ck.sample({"edit_history": [_short_edit(e) for e in cases[len(cases) // 2]["h"]]})
+    ck.cov["edited_registry"] = {"max_len": maxlen, "histories": len(cases), "model_level_stale_layers": model_classes, "p_fail_records": nfail,
+                                 "namespace_built": sum(1 for t in traces if t["final"]["nsok"]), "namespace_refused": sum(1 for t in traces if not t["final"]["nsok"])}
+
+
 def _hist(ck, common, data, data_path):
     """stateful part: all histories of <= MaxLen Unit(str) calls on one registry over a small alphabet of strings"""
     alphabet = ["m", "km", "kkm", "mkm", "meter", "kilometer", "kmeter", "Mm", "kMm", "ft", "kft", "dam", "ddam", "g", "kg", "mkg", "degC", "kdegC", "°C", "k°C"]
@@ -152,6 +216,10 @@ def run(ck):
     if ck.replay:
         blob = json.load(open(ck.replay))
         case = blob["case"]
+        if "edit" in case:
+            traces = ck.pmap("impl_c14", "observe_edit", [{"h": case["edit"]}], nproc=1)
+            _validate_edit(ck, traces, "replay")
+            return
         if "h" in case:
             traces = ck.pmap("impl_c14", "observe_hist", [{"h": case["h"]}], nproc=1, common=common)
             _validate_hist(ck, common, data, data_path, traces)
@@ -202,3 +270,4 @@ def run(ck):
     ck.cov["routes_observed"] = {k: sum(1 for o in obs if o["r"][k]["present"]) for k in ("str", "reg", "qty", "us", "top", "ns")}
 
     _hist(ck, common, data, data_path)
+    _edit(ck)
